@@ -8,6 +8,7 @@ package layers
 
 import (
 	"encoding/binary"
+	"errors"
 
 	"github.com/gopacket/gopacket"
 )
@@ -24,6 +25,10 @@ func (e *EtherIP) LayerType() gopacket.LayerType { return LayerTypeEtherIP }
 
 // DecodeFromBytes decodes the given bytes into this layer.
 func (e *EtherIP) DecodeFromBytes(data []byte, df gopacket.DecodeFeedback) error {
+	if len(data) < 2 {
+		df.SetTruncated()
+		return errors.New("EtherIP packet too short")
+	}
 	e.Version = data[0] >> 4
 	e.Reserved = binary.BigEndian.Uint16(data[:2]) & 0x0fff
 	e.BaseLayer = BaseLayer{data[:2], data[2:]}
